@@ -744,7 +744,7 @@ func replay(path string) int {
 	}
 	defer os.RemoveAll(scratch)
 	if cfg.Engine == "cli" {
-		return replayCLI(cfg, &rf, scratch)
+		return replayCLI(cfg, &rf, scratch, path)
 	}
 	b := buildLib(cfg, rf.Tier, scratch)
 	v, out := replayOnce(cfg, b, &rf)
